@@ -514,7 +514,10 @@ fn gen_script(rng: &mut Rng, interactive: bool) -> String {
     let mut next = 0u32;
     let mut p = |rng: &mut Rng| {
         next += 1;
-        format!("probe -s {} k{next}", rng.pick(&[0, 0, 1, 2, 5]))
+        // (some probes take an argument produced by pathname expansion: a pending trap must not
+        // make the shell drop the command while it scans the directory)
+        let glob = if rng.chance(25) { " /b*n /t?p" } else { "" };
+        format!("probe -s {} k{next}{glob}", rng.pick(&[0, 0, 1, 2, 5]))
     };
     let mut s = String::from(TRAP_LINE);
     s.push_str("f() { probe -s 1 kf1; probe -s 0 kf2; }\n");
